@@ -77,6 +77,10 @@ def kinds_of(errors):
     return sorted(ks, key=lambda k: order.index(k) if k in order else 99)
 
 
+class _Cut(Exception):
+    pass
+
+
 BUDGET_S = 10.0
 
 
@@ -127,6 +131,25 @@ def impl_unbounded(case):
             ec.update_plan(ph, ph.depends_on)
             if sorted(ec.plan) != sorted(s.id for s in ph.statements):
                 cons = "plan-incomplete"
+            # ... and stepped: a step cut short after its first statement, then a whole step on the same controller
+            for cut in (1, 2, None):
+                seen = []
+
+                class T:
+                    def evaluate_condition(self, stmt):
+                        seen.append(stmt.id)
+                        if cut is not None and len(seen) >= cut:
+                            raise _Cut()
+                        return False
+                ec.reset()
+                ec.update_plan(ph, ph.depends_on)
+                try:
+                    for _ in ec(ph, T()):
+                        pass
+                except _Cut:
+                    pass
+                if cut is None and sorted(seen) != sorted(s.id for s in ph.statements):
+                    cons = "step-after-cut-incomplete"
     except Exception as e:
         cons = type(e).__name__
     return {"res": "accept", "consumers": cons}
@@ -282,8 +305,29 @@ def ladder(layers, back_edge):
     return {"op": "C10.verify", "tag": "ladder", "phases": [{"name": "A", "stmts": stmts}]}
 
 
+def reused_id_cases():
+    """two phases that use the SAME statement ids (ids are scoped by phase): every pair of graphs on {a0, a1}, and a
+    three-statement first phase against small second phases - a cycle in one phase must be found whatever a phase
+    that comes later does with the same ids"""
+    ids = ["a0", "a1"]
+    subs = list(subsets(ids))
+    for ca in itertools.product(subs, repeat=2):
+        for cb in itertools.product(subs, repeat=2):
+            yield {"op": "C10.verify", "tag": "reused-ids",
+                   "phases": [{"name": "A", "stmts": [{"id": ids[i], "deps": ca[i]} for i in range(2)]},
+                              {"name": "B", "stmts": [{"id": ids[i], "deps": cb[i]} for i in range(2)]}]}
+    ids3 = ["a0", "a1", "a2"]
+    subs3 = list(subsets(ids3))
+    for ca in itertools.product(subs3[:6], repeat=3):
+        for second in ([{"id": "a0", "deps": []}], [{"id": "a1", "deps": []}, {"id": "a2", "deps": ["a1"]}]):
+            yield {"op": "C10.verify", "tag": "reused-ids",
+                   "phases": [{"name": "A", "stmts": [{"id": ids3[i], "deps": ca[i]} for i in range(3)]},
+                              {"name": "B", "stmts": second}]}
+
+
 def cases(rng, tier):
     yield from flag_cases()
+    yield from reused_id_cases()
     for layers in (8, 40):
         yield ladder(layers, False)
         yield ladder(layers, True)
